@@ -3,6 +3,7 @@ from contracts import nsf as N
 from contracts import core as K
 
 from contracts import wrappers as W
+from contracts import formulas as F
 ID = "C03"
 LEVEL = "proof"
 TRUSTED = [
@@ -19,14 +20,15 @@ EXPLANATION = ("Deductive: _calculate_scattering, Neutron.scattering_by_waveleng
 
 
 def units(tier):
-    return ([N.U_CALC, N.U_SBW_PLAIN, N.U_SBW_TABLE, N.L_SUM_POSITIVE, N.U_NS_WAVELENGTH, N.U_NS_ENERGY, N.U_NS_DEFAULT,
-            N.U_NSCAT, N.U_NSLD, N.L_ELEMENT_VS_COMPOUND, K.L_REGISTRATION]) + [W.U_NSF_NEUTRON_SLD, W.U_PKG[3], W.U_PKG[4], W.U_FROM_ATOMS[0]]
+    return (([N.U_CALC, N.U_SBW_PLAIN, N.U_SBW_TABLE, N.L_SUM_POSITIVE, N.U_NS_WAVELENGTH, N.U_NS_ENERGY, N.U_NS_DEFAULT,
+            N.U_NSCAT, N.U_NSLD, N.L_ELEMENT_VS_COMPOUND, K.L_REGISTRATION]) + [W.U_NSF_NEUTRON_SLD, W.U_PKG[3], W.U_PKG[4], W.U_FROM_ATOMS[0]]) + F.U_FORMULA_OF_FORMULA + F.U_INIT
 
 
 def runner_tasks(tier):
     return [{"module": "c03", "task": "sample", "kind": "bounded", "clause": "all outputs vs documented equations, in floats"},
             {"module": "c07", "task": "energy_tables", "kind": "eval", "clause": "energy-dependent tables: nodes, clamping, interpolation axis"},
-            {"module": "c09", "task": "steps", "name": "first-touch steps", "kind": "eval", "arg": {"groups": ["neutron"]}, "clause": "every first touch of the neutron data (element, isotope, ion, calculators) serves the canonical data", "timeout": 1500}]
+            {"module": "c09", "task": "steps", "name": "first-touch steps", "kind": "eval", "arg": {"groups": ["neutron"]}, "clause": "every first touch of the neutron data (element, isotope, ion, calculators) serves the canonical data", "timeout": 1500},
+            {"module": "stateful", "task": "C03", "name": "stateful C03", "kind": "bounded", "clause": "wavelength / energy in every numeric type and array layout: shape, entry-wise equality with the scalar call, argument untouched"}]
 
 
 REPLAY = {'module': 'c03', 'task': 'replay'}
